@@ -54,6 +54,8 @@ func main() {
 	}
 }
 
+var outRoot = verifRoot
+
 type checkOpts struct {
 	prop    string
 	tier    string
@@ -75,6 +77,7 @@ func cmdCheck(args []string) int {
 	fs.BoolVar(&o.keep, "keep", false, "keep the scratch directory")
 	fs.StringVar(&o.only, "only", "", "only units whose name contains this")
 	fs.BoolVar(&o.noprobe, "noprobe", false, "skip probe corpus")
+	fs.StringVar(&outRoot, "outdir", verifRoot, "where evidence/ and replays/ are written (scratch runs on modified copies use another directory)")
 	fs.Parse(args)
 	if o.tier == "" {
 		o.tier = os.Getenv("VERIF_TIER")
@@ -107,8 +110,8 @@ func runCheck(o checkOpts) int {
 	id := o.prop
 	fail := func(msg string) int {
 		// an engine error must never look like a pass
-		os.MkdirAll(filepath.Join(verifRoot, "replays"), 0o755)
-		rp := filepath.Join(verifRoot, "replays", id+"-engine-error.json")
+		os.MkdirAll(filepath.Join(outRoot, "replays"), 0o755)
+		rp := filepath.Join(outRoot, "replays", id+"-engine-error.json")
 		b, _ := json.MarshalIndent(map[string]any{"property": id, "obligation": "engine", "error": msg}, "", " ")
 		os.WriteFile(rp, b, 0o644)
 		writeEvidence(id, o, t0, nil, nil, nil, []string{msg}, 1, nil, nil)
@@ -314,7 +317,7 @@ func runCheck(o checkOpts) int {
 			fmt.Printf("  %-8s %-70s %s %.2fs\n", ob.Status, ob.Name, ob.Solver, ob.Secs)
 		}
 	}
-	os.MkdirAll(filepath.Join(verifRoot, "replays"), 0o755)
+	os.MkdirAll(filepath.Join(outRoot, "replays"), 0o755)
 	var knownLines []string
 	var samples []any
 	reported := map[string]bool{}
@@ -336,7 +339,7 @@ func runCheck(o checkOpts) int {
 	}
 	for _, p := range problems {
 		violations++
-		rp := filepath.Join(verifRoot, "replays", id+"-"+sanitize(firstN(p, 80))+".json")
+		rp := filepath.Join(outRoot, "replays", id+"-"+sanitize(firstN(p, 80))+".json")
 		b, _ := json.MarshalIndent(map[string]any{"property": id, "obligation": "model:supported-subset", "problem": p,
 			"meaning": "a construct or contract could not be translated: the function is unverifiable, which is reported as an undischarged obligation"}, "", " ")
 		os.WriteFile(rp, b, 0o644)
@@ -346,7 +349,7 @@ func runCheck(o checkOpts) int {
 	// vacuity guard: the obligation count must not shrink below the pinned number
 	if exp := expectedObligations(id); exp > 0 && nProof < exp && o.only == "" {
 		violations++
-		rp := filepath.Join(verifRoot, "replays", id+"-obligation-count.json")
+		rp := filepath.Join(outRoot, "replays", id+"-obligation-count.json")
 		b, _ := json.MarshalIndent(map[string]any{"property": id, "obligation": "vacuity:obligation-count", "expected_at_least": exp, "generated": nProof}, "", " ")
 		os.WriteFile(rp, b, 0o644)
 		fmt.Printf("VIOLATION property=%s replay=%s no-failing-input-found\n", id, rp)
@@ -408,7 +411,7 @@ func expectedObligations(id string) int {
 }
 
 func reportViolation(id string, ob *Oblig, scratch string, o checkOpts) string {
-	base := filepath.Join(verifRoot, "replays", id+"-"+sanitize(ob.Name))
+	base := filepath.Join(outRoot, "replays", id+"-"+sanitize(ob.Name))
 	smtFile := base + ".smt2"
 	os.WriteFile(smtFile, []byte(ob.smt(false)), 0o644)
 	model := ""
@@ -450,7 +453,7 @@ func reportViolation(id string, ob *Oblig, scratch string, o checkOpts) string {
 }
 
 func writeEvidence(id string, o checkOpts, t0 time.Time, cov map[string]any, samples []any, recs []obRecord, assumed []string, violations int, db *ContractDB, problems []string) {
-	os.MkdirAll(filepath.Join(verifRoot, "evidence"), 0o755)
+	os.MkdirAll(filepath.Join(outRoot, "evidence"), 0o755)
 	// the level recorded is the one claimed for the property in MANIFEST.json ("proof", or
 	// "other" where part of the property is not decided by this family or a known finding is
 	// open); a run that does not discharge everything is never recorded as a proof
@@ -498,7 +501,7 @@ func writeEvidence(id string, o checkOpts, t0 time.Time, cov map[string]any, sam
 		"violations":  violations,
 	}
 	b, _ := json.MarshalIndent(ev, "", " ")
-	os.WriteFile(filepath.Join(verifRoot, "evidence", id+".json"), b, 0o644)
+	os.WriteFile(filepath.Join(outRoot, "evidence", id+".json"), b, 0o644)
 }
 
 func claimedCategory(id string) string {
